@@ -711,13 +711,20 @@ Proof.
     apply mapM_map_map. intros g Hg. apply parse_ints_rank1_ok. now destruct (wf_group_in m g W Hg). }
   rewrite E3. cbn [bind]. rewrite combine_map.
   rewrite map_ext with (g := fun x => x) by (intros []; reflexivity). rewrite map_id.
-  rewrite fold_dict_set; [reflexivity|].
-  cbn [map fst app]. constructor.
-  - intros Hin. apply in_map_iff in Hin as (g & Eg & Hg). unfold nonall in Hg.
-    apply filter_In in Hg as [_ Hg]. unfold is_all in Hg. rewrite Eg in Hg. discriminate.
-  - unfold nonall.
+  assert (ND : NoDup (map fst (nonall (m_egroups m)))).
+  { unfold nonall.
     rewrite (map_fst_filter _ (fun k => negb (String.eqb k "ALL"))) by (intros []; reflexivity).
-    apply NoDup_filter, nodup_str_NoDup, (wg_nd m W).
+    apply NoDup_filter, nodup_str_NoDup, (wg_nd m W). }
+  assert (EM : (if merge_egroups
+                then fold_left (fun acc kv => dict_append (fst kv) (snd kv) acc)
+                               (nonall (m_egroups m)) []
+                else nonall (m_egroups m)) = nonall (m_egroups m)).
+  { destruct merge_egroups; [|reflexivity]. now rewrite fold_dict_append. }
+  rewrite EM.
+  rewrite fold_dict_set; [reflexivity|].
+  cbn [map fst app]. constructor; [|exact ND].
+  intros Hin. apply in_map_iff in Hin as (g & Eg & Hg). unfold nonall in Hg.
+  apply filter_In in Hg as [_ Hg]. unfold is_all in Hg. rewrite Eg in Hg. discriminate.
 Qed.
 
 Lemma read_sections_ok : read_sections P = Ok (m_sections m).
@@ -746,6 +753,13 @@ Proof.
   apply String.eqb_eq in Hk. subst k. apply is_nil_false in Hn.
   cbn [lookup]. rewrite String.eqb_refl. cbn [map pb fst snd].
   change (captures "TYPE=" [header KInit]) with ["TEMPERATURE"].
+  assert (EM : forall B : list (list string),
+             (if merge_initial
+              then fold_left (fun acc kv => dict_append (fst kv) (snd kv) acc)
+                             (combine ["TEMPERATURE"] [B]) []
+              else combine ["TEMPERATURE"] [B]) = [("TEMPERATURE", B)])
+    by (intros; destruct merge_initial; reflexivity).
+  rewrite EM. cbn [map fst snd].
   assert (Ex : existsb (existsb (fun fs : list string =>
                                    match fs with f0 :: _ => starts_alpha f0 | [] => false end))
                        [map fields (map node_row rows)] = false).
